@@ -16,6 +16,8 @@ R-C08.3  every successor edge, dummy ones included, is examined; the edge loop h
 R-C08.4  CFG construction: dead code after a jump hangs off the block that jumped
          (`prev_bb` follows the current block), and the pruning loop removes
          unreachable->reachable edges symmetrically.
+R-C08.5  path-dependent types: check_rows_match raises iff some variable's type differs between the
+         two rows (all small row pairs, c08_rows.py below); check_cfg compares revisited blocks.
 Not decided: that the CFG has exactly Python's paths.
 """
 
@@ -182,6 +184,10 @@ def run(ctx: Ctx) -> None:
         and "update_reachable()" in txt
     ctx.check(ok, "R-C08.4", f"{bld.qualname}#pruning-is-symmetric", bld.where, {},
               "pruning jumps from unreachable into reachable code leaves successor/predecessor lists inconsistent")
+
+    # ------------------------------------------------------------ R-C08.5 path-dependent types
+    from . import c08_rows
+    c08_rows.run(ctx)
 
 
 def _exprs(n):
